@@ -341,6 +341,10 @@ def apply_contract(I, con, args, kwargs, fi=None, callee_label=None):
     typed_bound = {}
     for k, v in bound.items():
         pty = con.params.get(k) or con.params.get("*" + k) or con.params.get("**" + k)
+        if pty is not None and callable(pty) and not isinstance(pty, T):
+            # the contract builds this parameter itself when its body is verified (a display of known shape): callers pass theirs as it is
+            typed_bound[k] = ctx.from_val(v) if isinstance(v, SV) else v
+            continue
         if isinstance(pty, TSeq) and isinstance(v, (VTuple, VList)):
             # a display of known length passed where the contract speaks of a sequence: the same items as a heap sequence
             v = I.B.materialise_seq(I, v, pty)
